@@ -55,6 +55,14 @@ func c13StopSpecs() []c14Spec {
 		c14Spec{Name: "stop/dir/create+fault", Setup: dirSetup, Tasks: [][]SOp{{sop("create", 1, "n", uint32(p9p.DMDIR|0755), p9p.OREAD)}}, Dev: 1},
 		c14Spec{Name: "stop/dir/walk1[d]+fault", Setup: dirSetup, Tasks: [][]SOp{{sop("walk", 1, p9p.Fid(1), []string{"d"})}}, Dev: 1},
 	)
+	// Stop with hundreds of fids bound (nothing else running): a sweep that
+	// only works up to some number of fids
+	var many []SOp
+	many = append(many, attach0)
+	for i := 1; i <= 299; i++ {
+		many = append(many, sop("walk", 0, p9p.Fid(i), []string{}))
+	}
+	out = append(out, c14Spec{Name: "stop/many-fids-300", Setup: many})
 	return out
 }
 
